@@ -426,6 +426,21 @@ def structured_cases(rng, quick):
             for ek, c in confs:
                 c["keys"] = random_keys(rng)
                 cases.append({"steps": [c], "focus": (i, hk, sp), "ek": ek, "tag": "enforce/structured"})
+    # long lists: the one entry that applies is the LAST (or a middle one) of 40 -- every entry counts, wherever it stands
+    filler_pats = [("pat", (True, ("lit", "zz%d.invalid" % n), True)) for n in range(39)]
+    filler_nets = ["10.%d.0.0/16" % n for n in range(20)] + ["2001:db8:aa%02x::/48" % n for n in range(19)]
+    for i in range(NSUBJ):
+        for hk, sp, text, addr, zone, script in subject_hosts(i)[i::NSUBJ] if quick else subject_hosts(i):
+            cover = subnets_covering(addr_family_kind(hk, sp), i, rng)
+            pos = rng.randrange(1, 39)
+            confs = [("long-pattern-list", cfg(domains=filler_pats + [("pat", patterns_for(text, rng)[0][1])], why="40 patterns, the last one applies")),
+                     ("long-pattern-list", cfg(domains=filler_pats[:pos] + [("pat", patterns_for(text, rng)[1][1])] + filler_pats[pos:], why="40 patterns, number %d applies" % pos)),
+                     ("long-blocklist", cfg(block=filler_nets + [cover[0]], why="40 subnets, the last one applies")),
+                     ("long-blocklist", cfg(block=filler_nets[:pos] + [cover[-1]] + filler_nets[pos:], why="40 subnets, number %d applies" % pos)),
+                     ("long-allowlist", cfg(allow=filler_nets + [cover[0]], why="40 allowlist subnets, the last one covers the host")),
+                     ("long-phantom-list", cfg(phantom=filler_nets + [phantom_nets(i)[rng.randrange(4)]], why="40 phantom subnets, the last one applies"))]
+            for ek, c in confs:
+                cases.append({"steps": [c], "focus": (i, hk, sp), "ek": ek, "tag": "enforce/structured"})
     # covert_blocklist_public_addrs: the interface subnets as implicit blocklist entries, against every spelling of a loopback address
     for hk, sp, text, addr, zone, script in loopback_hosts():
         own = "127.0.0.0/8" if norm_addr(addr).version == 4 else "::1/128"
@@ -626,6 +641,9 @@ def run_enforce(ctx, files):
                     if q["subj"] == c["focus"][0] and c["focus"][1] == q["hk"] and c["focus"][2] == q["sp"] and k == 0:
                         kk = "enforce/%s/%s/%s" % (c["ek"], q["hk"], "admitted" if o["admit"] else "refused")
                         hist[kk] = hist.get(kk, 0) + 1
+                        if c["ek"].startswith("long-"):
+                            kk = "enforce/%s/*/%s" % (c["ek"], "admitted" if o["admit"] else "refused")
+                            hist[kk] = hist.get(kk, 0) + 1
                     if fb:
                         ncheck["forbidden"] += 1
                     else:
@@ -692,6 +710,7 @@ def run_enforce(ctx, files):
             req.append("enforce/%s/%s/refused" % (ek, hk))
         for ek in ("allowlist-covering", "no-entry"):
             req.append("enforce/%s/%s/admitted" % (ek, hk))
+    req += ["enforce/long-pattern-list/*/refused", "enforce/long-blocklist/*/refused", "enforce/long-allowlist/*/admitted"]
     for fam in ("v4", "v6", "mapped"):
         req += ["enforce/phantom/%s/refused" % fam, "enforce/phantom/%s/admitted" % fam]
     # the interface subnets are the machine's: the loopback classes are required where the machine has them
